@@ -34,6 +34,40 @@ def run(ctx) -> None:
     matches = [n for n in walk_no_nested(cv.node) if isinstance(n, ast.Match) and norm(n.subject) == "op"]
     if len(matches) != 1:
         raise AnchorError("compare_values: `match op` not found")
+    # the two operand locals, by role: assigned (somewhere) from an expression that mentions the first / second value
+    # parameter (directly or through a local derived from it)
+    pars = [a.arg for a in cv.node.args.args]
+    if len(pars) != 5:
+        raise AnchorError("compare_values: signature (op, value_a, unit_a, value_b, unit_b) changed")
+    va, vb = pars[1], pars[3]
+    in_match0 = {id(x) for x in ast.walk(matches[0])}
+
+    def derived(seed):
+        names = {seed}
+        changed = True
+        while changed:
+            changed = False
+            for n in walk_no_nested(cv.node):
+                if isinstance(n, ast.Assign) and id(n) not in in_match0:   # the normalisation before the match, not the arms
+                    tg, vals = n.targets[0], n.value
+                    pairs = list(zip(tg.elts, vals.elts)) if isinstance(tg, ast.Tuple) and isinstance(vals, ast.Tuple) and \
+                        len(tg.elts) == len(vals.elts) else [(tg, vals)]
+                    for t, v in pairs:
+                        if isinstance(t, ast.Name) and t.id not in names and any(isinstance(x, ast.Name) and x.id in names for x in ast.walk(v)):
+                            names.add(t.id)
+                            changed = True
+        return names
+    da, db = derived(va) - {va}, derived(vb) - {vb}
+    cmp_names = [(norm(x.left), norm(x.comparators[0])) for x in ast.walk(matches[0]) if isinstance(x, ast.Compare) and len(x.ops) == 1
+                 and isinstance(x.left, ast.Name) and isinstance(x.comparators[0], ast.Name)]
+    QA = next((l for l, r in cmp_names if l in da and l not in db), None)
+    QB = next((r for l, r in cmp_names if r in db and r not in da), None)
+    if QA is None or QB is None:
+        swapped = next(((l, r) for l, r in cmp_names if l in db and r in da and l not in da and r not in db), None)
+        if swapped:
+            QA, QB = swapped[1], swapped[0]    # arms compare (b, a): reported below arm by arm
+        else:
+            raise AnchorError("compare_values: operand locals of the match arms could not be tied to value_a / value_b")
     handled = {}
     default_raises = False
     for case in matches[0].cases:
@@ -47,7 +81,7 @@ def run(ctx) -> None:
             default_raises = any(isinstance(x, ast.Raise) for x in ast.walk(case))
             continue
         comps = [x for st in case.body for x in ast.walk(st) if isinstance(x, ast.Compare) and len(x.ops) == 1
-                 and norm(x.left) == "quantity_a" and norm(x.comparators[0]) == "quantity_b"]
+                 and norm(x.left) == QA and norm(x.comparators[0]) == QB]
         for lit in pats:
             handled[lit] = PYOP.get(type(comps[-1].ops[0])) if comps else None
     want = {"<": "<", "<=": "<=", ">": ">", ">=": ">=", "=": "==", "==": "==", "!=": "!="}
@@ -125,7 +159,7 @@ def run(ctx) -> None:
         raise AnchorError(f"only {n_pairs} comparable unit pairs derived (floor 20)")
     # ---- R21c
     assigns = [n for n in walk_no_nested(cv.node) if isinstance(n, ast.Assign) and isinstance(n.targets[0], ast.Tuple)
-               and [norm(e) for e in n.targets[0].elts] == ["quantity_a", "quantity_b"] and isinstance(n.value, ast.Tuple)]
+               and [norm(e) for e in n.targets[0].elts] == [QA, QB] and isinstance(n.value, ast.Tuple)]
     bad = None
     for a in assigns:
         l, r = a.value.elts
@@ -134,12 +168,19 @@ def run(ctx) -> None:
         if isinstance(l, ast.Call) != isinstance(r, ast.Call):
             bad = a
     in_match = {id(x) for x in ast.walk(matches[0])}
-    pa = [n for n in walk_no_nested(cv.node) if isinstance(n, ast.Assign) and norm(n.targets[0]) in ("quantity_a", "quantity_b")
+    pa = [n for n in walk_no_nested(cv.node) if isinstance(n, ast.Assign) and norm(n.targets[0]) in (QA, QB)
           and id(n) not in in_match]
     shapes = {}
     for n in pa:
-        shapes.setdefault(norm(n.targets[0]), []).append(norm(n.value).replace("_a", "_X").replace("_b", "_X"))
-    if bad is None and shapes.get("quantity_a") == shapes.get("quantity_b"):
+        # shape of the defining expression with every a-side / b-side name replaced by one placeholder
+        class _Ph(ast.NodeTransformer):
+            def visit_Name(self, nn):
+                if nn.id in da | {va, pars[2]} or nn.id in db | {vb, pars[4]}:
+                    return ast.Name(id="X", ctx=nn.ctx)
+                return nn
+        import copy
+        shapes.setdefault("a" if norm(n.targets[0]) == QA else "b", []).append(norm(_Ph().visit(copy.deepcopy(n.value))))
+    if bad is None and shapes.get("a") == shapes.get("b"):
         ctx.ok("R21c", "compare_values: quantity_a and quantity_b are built by the same expressions")
     else:
         ctx.fail("R21c", cv, (bad or cv.node), "compare_values: quantity_a and quantity_b are built by the same expressions",
